@@ -3,6 +3,7 @@ package scenarios
 import (
 	"bytes"
 	"fmt"
+	"strings"
 	"sync/atomic"
 	"testing"
 	"time"
@@ -159,5 +160,82 @@ func TestTransactionIteratorSurvivesABufferSpill(t *testing.T) {
 	}
 	if fmt.Sprint(got) != fmt.Sprint(want) {
 		t.Fatalf("transaction iterator lost the transaction's writes:\n got  %v\n want %v", got, want)
+	}
+}
+
+// obligation leveldb.(*tOps).remove$1:assert(C01,C11:blocks-cached-under-a-file-number-are-evicted-before-the-number-is-reused
+// The table of a discarded transaction gives its file number back; the next table gets the same number. Blocks are
+// cached under the file number, so blocks read through the discarded transaction must not be served for the new
+// table: a Get after the second transaction's Commit returns the committed values, never the discarded ones (F12).
+func TestDiscardedTransactionsBlocksAreNotServedForTheNextTable(t *testing.T) {
+	db, err := leveldb.Open(storage.NewMemStorage(), &opt.Options{WriteBuffer: 64 * opt.KiB, Compression: opt.NoCompression})
+	must(t, err)
+	defer db.Close()
+	keys := []string{"a1", "a2", "a3", "a4"}
+	val := func(tag string) []byte { return []byte(strings.Repeat(tag, 30*1024/len(tag))) }
+
+	tr, err := db.OpenTransaction()
+	must(t, err)
+	for _, k := range keys {
+		must(t, tr.Put([]byte(k), val("OLD"), nil))
+	}
+	// reading through the transaction fills the block cache with blocks of its table(s)
+	for _, k := range keys {
+		if v, err := tr.Get([]byte(k), nil); err != nil || !bytes.Equal(v, val("OLD")) {
+			t.Fatalf("tr.Get %s: %v", k, err)
+		}
+	}
+	tr.Discard()
+	for _, k := range keys {
+		if _, err := db.Get([]byte(k), nil); err != leveldb.ErrNotFound {
+			t.Fatalf("after discard %s: %v", k, err)
+		}
+	}
+	tr, err = db.OpenTransaction()
+	must(t, err)
+	for _, k := range keys {
+		must(t, tr.Put([]byte(k), val("NEW"), nil))
+	}
+	must(t, tr.Commit())
+	for _, k := range keys {
+		v, err := db.Get([]byte(k), nil)
+		if err != nil {
+			t.Errorf("Get %s: %v", k, err)
+		} else if !bytes.Equal(v, val("NEW")) {
+			t.Errorf("Get %s returns a value of the discarded transaction (starts with %q)", k, v[:6])
+		}
+	}
+}
+
+// obligation leveldb.(*session).flushManifest:post(C08,C11:a-commit-that-reports-an-error-left-no-record-in-the-manifest)#ret 4
+// A transaction whose Commit reported an error is discarded (the documented reaction); its tables are removed. The DB
+// must open again afterwards and still hold what was acknowledged before (known finding F14: the manifest record of
+// the failed commit had been flushed before the failing sync, so the manifest names the removed tables).
+func TestDiscardAfterAFailedCommitLeavesAnOpenableDB(t *testing.T) {
+	fs := newFaultStorage()
+	db, err := leveldb.Open(fs, &opt.Options{WriteBuffer: 64 * opt.KiB})
+	must(t, err)
+	must(t, db.Put([]byte("acknowledged"), []byte("v"), nil))
+	tr, err := db.OpenTransaction()
+	must(t, err)
+	must(t, tr.Put([]byte("k"), bytes.Repeat([]byte{'x'}, 100), nil))
+	atomic.StoreInt32(fs.failSync[storage.TypeManifest], 3)
+	cerr := tr.Commit()
+	atomic.StoreInt32(fs.failSync[storage.TypeManifest], 0)
+	if cerr == nil {
+		t.Skip("the injected sync failures did not fail the commit")
+	}
+	tr.Discard()
+	must(t, db.Close())
+	db, err = leveldb.Open(fs, nil)
+	if err != nil {
+		t.Fatalf("reopen after a failed and discarded transaction: %v", err)
+	}
+	defer db.Close()
+	if v, err := db.Get([]byte("acknowledged"), nil); err != nil || string(v) != "v" {
+		t.Fatalf("acknowledged write after reopen: %q, %v", v, err)
+	}
+	if _, err := db.Get([]byte("k"), nil); err != leveldb.ErrNotFound {
+		t.Fatalf("write of the discarded transaction after reopen: %v", err)
 	}
 }
